@@ -43,9 +43,11 @@ func kpSysCase(w *bufio.Writer, r *u.Rng, dist map[string]int) {
 	nxt := map[bool]int64{true: int64(r.Pick(0, 0, 3, 1000)), false: int64(r.Pick(0, 0, 7, 70000))}
 	n0 := map[bool]int64{true: nxt[true], false: nxt[false]}
 	rcv := map[bool]int64{true: -1, false: -1}
+	laH := map[bool]int64{true: -1, false: -1} // the last value SetLargestAcked accepted (what the length is chosen from)
 	type spkt struct {
 		from    bool
 		gen     uint64
+		pnLen   protocol.PacketNumberLen
 		pn, ack int64
 		ad, ct  []byte
 		pt      []byte
@@ -81,7 +83,8 @@ func kpSysCase(w *bufio.Writer, r *u.Rng, dist map[string]int) {
 			}
 			ad := []byte{0x40, byte(len(sent))}
 			pt := r.Bytes(6)
-			p := spkt{from: x, gen: ep[x].Phase(), pn: nxt[x], ack: rcv[x], ad: ad, pt: pt}
+			p := spkt{from: x, gen: ep[x].Phase(), pn: nxt[x], ack: rcv[x], ad: ad, pt: pt,
+				pnLen: protocol.PacketNumberLengthForHeader(protocol.PacketNumber(nxt[x]), protocol.PacketNumber(laH[x]))}
 			p.ct = ep[x].Seal(pt, protocol.PacketNumber(p.pn), ad)
 			nxt[x] += 1 + skip
 			sent = append(sent, p)
@@ -101,7 +104,15 @@ func kpSysCase(w *bufio.Writer, r *u.Rng, dist map[string]int) {
 				kp = protocol.KeyPhaseOne
 			}
 			hadPrev := ep[y].HasPrevKeys()
-			dec, cls := ep[y].Open(p.ct, now, protocol.PacketNumber(p.pn), kp, p.ad)
+			// the packet number travels truncated; the receiver decodes it against its highestRcvdPN
+			wire := p.pn & (int64(1)<<(8*uint(p.pnLen)) - 1)
+			tol := int64(1)<<(8*uint(p.pnLen)-1) - 2
+			highest := int64(ep[y].HighestRcvd())
+			decoded := ep[y].DecodePacketNumber(protocol.PacketNumber(wire), p.pnLen)
+			if highest <= p.pn+tol && int64(decoded) != p.pn {
+				fmt.Fprintf(w, "MONFAIL\tkeyphase/sys-decode\tpacket number %d (sent with %d bytes) decoded to %d although the receiver (highest %d) is within the tolerance of that length\t%s\n", p.pn, p.pnLen, decoded, highest, desc())
+			}
+			dec, cls := ep[y].Open(p.ct, now, decoded, kp, p.ad)
 			// ---- the statement of C05_keyphase_histories on the implementation ----
 			if p.gen > before+1 {
 				fmt.Fprintf(w, "MONFAIL\tkeyphase/sys-ahead\tpacket of generation %d in flight towards an endpoint in phase %d\t%s\n", p.gen, before, desc())
@@ -122,6 +133,8 @@ func kpSysCase(w *bufio.Writer, r *u.Rng, dist map[string]int) {
 				if p.ack >= 0 {
 					if e := ep[y].SetLargestAcked(protocol.PacketNumber(p.ack)); e != handshake.VerifOK {
 						fmt.Fprintf(w, "MONFAIL\tkeyphase/sys-ack-refused\tACK %d carried by packet #%d answered with class %d\t%s\n", p.ack, i, e, desc())
+					} else {
+						laH[y] = p.ack
 					}
 				}
 				if ep[y].Phase() != before {
